@@ -30,6 +30,25 @@
    queues to `write_priority|normal|low`, the write pool's `max_size`, `Semaphore::new(n)` of
    `write_sema`.
 
+3. Bounded channels (waits on a channel under a guard).  Channels: every `let (tx, rx) = bounded(cap,
+   "label");` of the non-test sources (the pool's own three queues in klukai-types/src/agent.rs are part of
+   the `conn` resource), plus `mpsc::channel(cap)` / `tokio_channel(cap)` in agent/setup.rs and
+   agent/run_root.rs.  A sender / receiver is recognised by the last name segment of the method receiver:
+   the creating variable's name anywhere (`tx_apply`, `agent.tx_apply()`), or an alias — a `let x = …name…
+   [.clone()];` in the same function, or the parameter that receives it at a call site (followed through
+   calls to a fixpoint; that is how `rx_clear_buf` becomes `rx_partials` in `clear_buffered_meta_loop`).
+     * blocking send: `.blocking_send(`, `.send(`, `.send_timeout(`, `.reserve*(` on a sender of a known
+       channel -> `acq chan; rel chan` at its textual position (`try_send` does not block: ignored);
+     * consumer: the program that calls `.recv()`/`.recv_many(`/`.blocking_recv()` on a receiver of the
+       channel holds `chan` over the innermost loop body around that call (the whole rest of the function
+       if there is no loop); a channel with blocking senders but no consumer found raises;
+     * `.blocking_send(` / `.send(…).await` on any other receiver whose name looks like a channel sender
+       (`tx`, `*_tx`, `tx_*`, `*sender*`) while the program holds conn / bookie / booked raises: a wait
+       on an unknown channel under a guard cannot be decided.
+   Ranks: a topological order of "held -> acquired" over all programs plus conn -> bookie -> booked is
+   emitted as `ranking`; when there is a cycle the leftover kinds are emitted in the default order and
+   Lean's `decide` on `ordered ranking` fails, which is the finding.
+
 Strict: anything unexpected raises; tools/check then reports the broken tie.
 """
 import bisect, glob, os, re
@@ -426,6 +445,7 @@ class Program:
         self.excluded = excluded  # [(a,b)] sub-ranges that belong to other programs
         self.events = []          # (pos, order, op)
         self.calls = []           # (pos, callee name)
+        self.unknown_sends = []   # (pos, receiver, method, line)
 
     def owns(self, pos):
         return self.root < pos < self.close and not any(a <= pos < b for a, b in self.excluded)
@@ -461,6 +481,318 @@ def release_of(f, prog, acq):
         if esc and re.compile(r"(?:\*\s*)?[A-Za-z_][A-Za-z0-9_.]*\s*=[^=]").match(f.code, s["a"]):
             raise ExtractError(f"{f.rel}:{f.line(pos)}: a guard is assigned to an existing place; not understood")
         return s["b"], None
+
+
+# ------------------------------------------------------------------ bounded channels
+
+CHAN_FILES_RAW = ("crates/klukai-agent/src/agent/setup.rs", "crates/klukai-agent/src/agent/run_root.rs")
+POOL_FILE = "crates/klukai-types/src/agent.rs"
+SEND_METHODS = ("blocking_send", "send", "send_timeout", "reserve", "reserve_owned", "reserve_many")
+RECV_METHODS = ("recv", "recv_many", "blocking_recv")
+SENDERISH = re.compile(r"(^|_)tx($|_)|sender")
+
+
+class Channel:
+    def __init__(self, label, tx, rx, cap, where):
+        self.label, self.tx, self.rx, self.cap, self.where = label, tx, rx, cap, where
+        self.tx_names = {("*", tx)}    # (function name or "*", identifier)
+        self.rx_names = {("*", rx)}
+        self.consumers = []            # program names
+        self.senders = []              # "file:line in program"
+
+
+def find_channels(files):
+    chans = []
+    pat_b = re.compile(r"let\s*\(\s*(?:mut\s+)?([A-Za-z_][A-Za-z0-9_]*)\s*,\s*(?:mut\s+)?([A-Za-z_][A-Za-z0-9_]*)\s*\)\s*=\s*bounded\s*\(")
+    pat_r = re.compile(r"let\s*\(\s*(?:mut\s+)?([A-Za-z_][A-Za-z0-9_]*)\s*,\s*(?:mut\s+)?([A-Za-z_][A-Za-z0-9_]*)\s*\)\s*=\s*(?:(?:tokio\s*::\s*sync\s*::\s*)?mpsc\s*::\s*channel|tokio_channel)\s*(?:::\s*<[^;{}()]*?>\s*)?\(")
+    for f in files:
+        if f.rel == POOL_FILE:
+            continue
+        for pat, raw in ((pat_b, False), (pat_r, True)):
+            if raw and f.rel not in CHAN_FILES_RAW:
+                continue
+            for m in pat.finditer(f.code):
+                op = m.end() - 1
+                cl = f.match[op]
+                args = split_top(f, op + 1, cl)
+                if raw:
+                    if len(args) != 1:
+                        raise ExtractError(f"{f.rel}:{f.line(m.start())}: channel(..) with {len(args)} arguments")
+                    label = m.group(1)
+                else:
+                    if len(args) != 2:
+                        raise ExtractError(f"{f.rel}:{f.line(m.start())}: bounded(..) with {len(args)} arguments")
+                    lm = re.fullmatch(r'\s*"([A-Za-z0-9_]+)"\s*', f.withstr[args[1][0]:args[1][1]])
+                    if not lm:
+                        raise ExtractError(f"{f.rel}:{f.line(m.start())}: bounded(..) label is not a plain literal")
+                    label = lm.group(1)
+                cap = re.sub(r"\s+", "", f.code[args[0][0]:args[0][1]])
+                chans.append(Channel(label, m.group(1), m.group(2), cap, f"{f.rel}:{f.line(m.start())}"))
+    labels = [c.label for c in chans]
+    if len(set(labels)) != len(labels):
+        raise ExtractError(f"two bounded channels share a label: {sorted(labels)}")
+    names = [c.tx for c in chans] + [c.rx for c in chans]
+    if len(set(names)) != len(names):
+        raise ExtractError(f"two bounded channels share a variable name: {sorted(names)}")
+    for need in ("apply", "clear_buf", "bcast", "changes", "foca"):
+        if need not in labels:
+            raise ExtractError(f"bounded channel `{need}` not found in the agent set-up")
+    chans.sort(key=lambda c: c.label)
+    return chans
+
+
+def split_top(f, lo, hi):
+    """top-level comma split of code[lo:hi] -> [(a,b)]"""
+    code, parts, start, j = f.code, [], lo, lo
+    while j < hi:
+        ch = code[j]
+        if ch in OPEN:
+            j = f.match[j] + 1
+            continue
+        if ch == ",":
+            parts.append((start, j))
+            start = j + 1
+        j += 1
+    if code[start:hi].strip():
+        parts.append((start, hi))
+    return parts
+
+
+def fn_params(f, fn_pos):
+    """parameter names of the fn item at fn_pos (self excluded, keeps positions of the others)"""
+    code = f.code
+    m = re.compile(r"fn\s+[A-Za-z_][A-Za-z0-9_]*").match(code, fn_pos)
+    i = skip_ws(code, m.end())
+    if code[i] == "<":
+        depth = 0
+        while i < len(code):
+            if code[i] == "<":
+                depth += 1
+            elif code[i] == ">" and code[i - 1] != "-":
+                depth -= 1
+                if depth == 0:
+                    i += 1
+                    break
+            i += 1
+        i = skip_ws(code, i)
+    out = []
+    for a, b in split_top(f, i + 1, f.match[i]):
+        t = code[a:b].strip()
+        if re.match(r"(&\s*)?('[a-z_]+\s+)?(mut\s+)?self\b", t):
+            continue
+        pm = re.match(r"(?:mut\s+)?([A-Za-z_][A-Za-z0-9_]*)\s*:", t)
+        out.append(pm.group(1) if pm else None)
+    return out
+
+
+def last_segment(expr):
+    """`&mut agent.tx_apply().clone()` -> tx_apply ; None when the expression is not a plain path/call chain"""
+    t = re.sub(r"\s+", "", expr)
+    t = re.sub(r"^&(mut)?", "", t)
+    t = re.sub(r"^mut(?=[A-Za-z_])", "", t) if t.startswith("mut ") else t
+    t = re.sub(r"(\.clone\(\))+$", "", t)
+    if not re.fullmatch(r"[A-Za-z_][A-Za-z0-9_]*(\(\))?((\.|::)[A-Za-z_][A-Za-z0-9_]*(\(\))?)*", t):
+        return None
+    seg = re.split(r"\.|::", t)[-1]
+    return seg[:-2] if seg.endswith("()") else seg
+
+
+def enclosing_fn(fns, pos):
+    best = None
+    for (n, o, c, fp) in fns:
+        if o < pos < c and (best is None or o > best[1]):
+            best = (n, o, c, fp)
+    return best
+
+
+def resolve_channel_names(chans, infos):
+    """infos: [(File, progs, fns)].  Follows senders / receivers through `let` aliases and call arguments."""
+    fn_index = {}
+    for f, _, fns in infos:
+        for (n, o, c, fp) in fns:
+            fn_index.setdefault(n, []).append((f, o, c, fp))
+    for _ in range(6):
+        grew = False
+        for ch in chans:
+            for names in (ch.tx_names, ch.rx_names):
+                idents = sorted({n for _, n in names})
+                pat = re.compile(r"(?<![A-Za-z0-9_])(" + "|".join(re.escape(n) for n in idents) + r")(?![A-Za-z0-9_])")
+                for f, _, fns in infos:
+                    for m in pat.finditer(f.code):
+                        fn = enclosing_fn(fns, m.start())
+                        if fn is None:
+                            continue
+                        scope = fn[0]
+                        if ("*", m.group(1)) not in names and (scope, m.group(1)) not in names:
+                            continue
+                        # (i) `let alias = <path ending in the name>[.clone()];`
+                        o = f.innermost_brace(m.start(), fn[1])
+                        try:
+                            st = f.statement_at(o, m.start())
+                        except ExtractError:
+                            st = None
+                        if st and st["let"]:
+                            lm = re.compile(r"let\s+(?:mut\s+)?([A-Za-z_][A-Za-z0-9_]*)\s*(?::[^=]*)?=([^=].*?);\s*$", re.S).match(f.code[st["a"]:st["b"]])
+                            if lm and last_segment(lm.group(2)) == m.group(1):
+                                key = (scope, lm.group(1))
+                                if key not in names and ("*", lm.group(1)) not in names:
+                                    names.add(key)
+                                    grew = True
+                        # (ii) argument of a call: the callee's parameter becomes an alias inside the callee
+                        k = m.start()
+                        par = None
+                        j = k
+                        depth = 0
+                        while j > fn[1]:
+                            j -= 1
+                            c2 = f.code[j]
+                            if c2 in ")]}":
+                                j = f.match[j]
+                            elif c2 == "(":
+                                par = j
+                                break
+                            elif c2 in "{[" or c2 == ";":
+                                break
+                        if par is None:
+                            continue
+                        args = split_top(f, par + 1, f.match[par])
+                        idx = next((i for i, (a, b) in enumerate(args) if a <= m.start() < b), None)
+                        if idx is None or last_segment(f.code[args[idx][0]:args[idx][1]]) != m.group(1):
+                            continue
+                        q = par - 1
+                        while q >= 0 and f.code[q].isspace():
+                            q -= 1
+                        e = q + 1
+                        while q >= 0 and (f.code[q].isalnum() or f.code[q] == "_"):
+                            q -= 1
+                        callee = f.code[q + 1:e]
+                        if not callee or callee not in fn_index:
+                            continue
+                        is_method = q >= 0 and f.code[q] == "."
+                        cands = fn_index[callee]
+                        same = [c for c in cands if c[0] is f]
+                        cands = same if same else cands
+                        if len(cands) != 1:
+                            continue
+                        cf, co, cc, cfp = cands[0]
+                        params = fn_params(cf, cfp)
+                        if is_method and False:
+                            pass
+                        if idx < len(params) and params[idx]:
+                            key = (callee, params[idx])
+                            if key not in names and ("*", params[idx]) not in names:
+                                names.add(key)
+                                grew = True
+        if not grew:
+            return
+    raise ExtractError("channel name resolution did not stabilise")
+
+
+def loop_body_around(f, prog, pos):
+    """the `{` of the innermost loop body (inside the program) that contains `pos`, or whose header does"""
+    o = f.innermost_brace(pos, prog.root)
+    st = f.statement_at(o, pos)
+    if st["word"] in ("while", "for", "loop"):
+        k = pos
+        while k < st["b"] and f.code[k] != "{":
+            k = f.match[k] + 1 if f.code[k] in "([" else k + 1
+        if k < st["b"]:
+            return k
+    while True:
+        if o == prog.root:
+            return None
+        parent = f.innermost_brace(o, prog.root)
+        st = f.statement_at(parent, o)
+        if st["word"] in ("while", "for", "loop"):
+            # is `o` the body of that loop (first depth-0 brace of the statement)?
+            k = st["a"]
+            while k < st["b"] and f.code[k] != "{":
+                k = f.match[k] + 1 if f.code[k] in "([" else k + 1
+            if k == o:
+                return o
+        o = parent
+
+
+def add_channel_events(chans, infos):
+    by_tx, by_rx = {}, {}
+    for ch in chans:
+        for key in ch.tx_names:
+            by_tx.setdefault(key, ch)
+        for key in ch.rx_names:
+            by_rx.setdefault(key, ch)
+    meth = re.compile(r"\.\s*(" + "|".join(SEND_METHODS + RECV_METHODS) + r")\s*(?:::\s*<[^;{}()]*?>\s*)?\(")
+    for f, progs, fns in infos:
+        for m in meth.finditer(f.code):
+            owners = [p for p in progs if p.owns(m.start())]
+            if not owners:
+                continue
+            owners.sort(key=lambda p: p.close - p.root)
+            p = owners[0]
+            fn = enclosing_fn(fns, m.start())
+            scope = fn[0] if fn else "*"
+            recv = receiver_name(f, m.start())
+            if recv is None:
+                continue
+            op = m.end() - 1
+            cl = f.match[op]
+            name = m.group(1)
+            if name in SEND_METHODS:
+                ch = by_tx.get((scope, recv)) or by_tx.get(("*", recv))
+                if ch is not None:
+                    p.events.append((m.start(), 1, -m.start(), ("acq", "chan:" + ch.label, "W", name, f.line(m.start()))))
+                    p.events.append((cl + 1, 0, -m.start(), ("rel", "chan:" + ch.label)))
+                    ch.senders.append(f"{f.rel}:{f.line(m.start())} ({p.name}, {name})")
+                    continue
+                awaited = bool(re.compile(r"\s*\.\s*await\b").match(f.code, cl + 1))
+                if (name == "blocking_send" or (name == "send" and awaited)) and SENDERISH.search(recv):
+                    p.unknown_sends.append((m.start(), recv, name, f.line(m.start())))
+            else:
+                ch = by_rx.get((scope, recv)) or by_rx.get(("*", recv))
+                if ch is None:
+                    continue
+                body = loop_body_around(f, p, m.start())
+                a, b = (body + 1, f.match[body]) if body is not None else (m.start(), p.close)
+                if any(e[3][0] == "acq" and e[3][1] == "chan:" + ch.label and e[3][3] == "consume" for e in p.events):
+                    continue
+                p.events.append((a, 1, -a, ("acq", "chan:" + ch.label, "W", "consume", f.line(m.start()))))
+                p.events.append((b, 0, -a, ("rel", "chan:" + ch.label)))
+                ch.consumers.append(f"{f.rel}::{p.name}")
+    for ch in chans:
+        if ch.senders and not ch.consumers:
+            raise ExtractError(f"bounded channel `{ch.label}` ({ch.where}) has blocking senders ({ch.senders[0]} …) but no consumer was found")
+        if len(ch.consumers) > 1:
+            raise ExtractError(f"bounded channel `{ch.label}` has several consumers: {ch.consumers}")
+
+
+def compute_ranking(chans, programs):
+    """topological order of held -> acquired; leftover (cyclic) kinds keep the default order"""
+    kinds = ["chan:" + c.label for c in chans] + ["conn", "bookie", "booked"]
+    default = {k: i for i, k in enumerate(kinds)}
+    edges = {("conn", "bookie"), ("bookie", "booked"), ("conn", "booked")}
+    for _, _, ops in programs:
+        held = []
+        for e in ops:
+            if e[0] == "acq":
+                for h in held:
+                    if h != e[1]:
+                        edges.add((h, e[1]))
+                held.append(e[1])
+            elif e[0] == "rel" and e[1] in held:
+                held.remove(e[1])
+    order, left, cyclic = [], list(kinds), []
+    while left:
+        free = [k for k in left if not any((h, k) in edges for h in left if h != k)]
+        if free:
+            k = min(free, key=lambda k: default[k])
+        else:
+            # a cycle: no rank order exists; place the default-first kind and go on, so that only the
+            # programs on the cycle fail `ordered`
+            k = min(left, key=lambda k: default[k])
+            cyclic.append(k)
+        order.append(k)
+        left.remove(k)
+    return {k: i for i, k in enumerate(order)}, cyclic
+
 
 
 def build_programs(f):
@@ -532,7 +864,30 @@ def scan_calls(progs_by_file, relevant):
             owner = owners[0]
             cands = names[m.group(1)]
             same = [c for c in cands if c.f is f]
+            if re.search(r"\bself\s*\.\s*$", f.code[max(0, m.start() - 24):m.start()]):
+                # a method of the same type: only functions of this file qualify
+                if not same:
+                    continue
+                cands = same
             target = same[0] if len(same) == 1 else (cands[0] if len(cands) == 1 else None)
+            qm = re.search(r"((?:[A-Za-z_][A-Za-z0-9_]*\s*::\s*)+)$", f.code[max(0, m.start() - 80):m.start()])
+            if qm and len(cands) > 1:
+                # `a::b::name(`: the module path names files / directories
+                qs = [x for x in re.split(r"\s*::\s*", qm.group(1)) if x]
+                if qs[-1] in ("self", "Self"):
+                    byq = same
+                elif qs[-1] == "super":
+                    byq = [c for c in cands if os.path.dirname(c.f.rel) in (os.path.dirname(f.rel), os.path.dirname(os.path.dirname(f.rel)))]
+                else:
+                    qs = [x for x in qs if x not in ("crate", "self", "super")]
+                    byq = [c for c in cands if all(x in re.split(r"[/.]", c.f.rel) for x in qs)]
+                    if len(byq) > 1:
+                        # prefer the file named after the last segment
+                        exact = [c for c in byq if os.path.basename(c.f.rel) == qs[-1] + ".rs"]
+                        byq = exact or byq
+                if not byq:
+                    continue  # a function of another module that is not extracted
+                target = byq[0] if len(byq) == 1 else None
             if target is None:
                 raise ExtractError(f"{f.rel}:{f.line(m.start())}: call of `{m.group(1)}` is ambiguous between "
                                    + ", ".join(c.f.rel for c in cands))
@@ -549,6 +904,8 @@ def linearise(p, stack=()):
     evs = list(p.events)
     for pos, callee in p.calls:
         evs.append((pos, 1, -pos, ("call", callee)))
+    for pos, recv, meth, line in p.unknown_sends:
+        evs.append((pos, 1, -pos, ("unk", recv, meth, f"{p.f.rel}:{line}")))
     evs.sort(key=lambda e: (e[0], e[1], e[2]))
     ops = []
     for _, _, _, e in evs:
@@ -575,15 +932,16 @@ def source_files(repo):
 
 
 def extract_programs(repo):
-    progs_by_file = []
+    infos = []
     for rel in source_files(repo):
         f = File(repo, rel)
-        quick = re.search(r"write_priority|write_normal|write_low|booki|booked", f.code)
-        if not quick:
-            progs_by_file.append((f, []))
-            continue
-        progs, _ = build_programs(f)
-        progs_by_file.append((f, progs))
+        progs, fns = build_programs(f)
+        infos.append((f, progs, fns))
+    progs_by_file = [(f, progs) for f, progs, _ in infos]
+    # bounded channels: table, name flow, send / consume events
+    chans = find_channels([f for f, _, _ in infos])
+    resolve_channel_names(chans, infos)
+    add_channel_events(chans, infos)
     # relevant = has events, or (fixpoint) calls a relevant program
     relevant = [p for _, ps in progs_by_file for p in ps if p.events]
     seen = set(id(p) for p in relevant)
@@ -608,6 +966,19 @@ def extract_programs(repo):
         ops = linearise(p)
         if not any(o[0] == "acq" for o in ops):
             continue
+        # a wait on an unknown channel while a guard is held cannot be decided
+        held = []
+        for e in ops:
+            if e[0] == "acq":
+                held.append(e[1])
+            elif e[0] == "rel" and e[1] in held:
+                held.remove(e[1])
+            elif e[0] == "unk":
+                guards = [h for h in held if not h.startswith("chan:")]
+                if guards:
+                    raise ExtractError(f"{e[3]}: `{e[1]}.{e[2]}(..)` waits on a channel the extractor does not know while "
+                                       f"`{p.name}` holds {guards}")
+        ops = [e for e in ops if e[0] != "unk"]
         result.append((p.f.rel, p.name, ops))
     result.sort(key=lambda t: (t[0], t[1]))
     # required functions
@@ -626,7 +997,7 @@ def extract_programs(repo):
             n_sites += 1
             if not any(p.owns(m.start()) for p in ps):
                 raise ExtractError(f"{f.rel}:{f.line(m.start())}: write-connection acquisition outside any function body")
-    return result, n_sites
+    return result, n_sites, chans
 
 
 # ------------------------------------------------------------------ write-pool constants
@@ -749,12 +1120,12 @@ def extract_pool(repo):
 
 # ------------------------------------------------------------------ rendering
 
-def check_ordered(ops):
+def check_ordered(ops, rank):
     """python twin of `Corro.LockOrder.ordered` (for messages only; Lean decides)"""
     held = []
     for e in ops:
         if e[0] == "acq":
-            if any(RANK[h] >= RANK[e[1]] for h in held):
+            if any(rank[h] >= rank[e[1]] for h in held):
                 return False, e
             held.append(e[1])
         elif e[0] == "rel":
@@ -764,12 +1135,20 @@ def check_ordered(ops):
     return not held, None
 
 
-def render(programs, pool, n_sites):
+def render(programs, pool, n_sites, chans):
+    rank, cyclic = compute_ranking(chans, programs)
+    ids = {"chan:" + c.label: i for i, c in enumerate(chans)}
+
+    def kind(k):
+        return f"(.chan {ids[k]})" if k.startswith("chan:") else "." + k
+
     L = []
     L.append("/- GENERATED by tools/extract_c20.py from /repo (crates/*/src). Do not edit: regenerated at the")
     L.append("   start of every check.  One program per function (or spawned async block) that acquires the write")
-    L.append("   connection, the bookie or a booked lock: acquisitions in textual order, a release where the")
-    L.append("   guard's scope ends, calls of other extracted functions inlined.  Actor 0 stands for any actor. -/")
+    L.append("   connection, the bookie or a booked lock, blocks on a send into one of the agent's bounded channels or")
+    L.append("   consumes one: acquisitions in textual order, a release where the guard's scope ends, a blocking send")
+    L.append("   as `acq chan; rel chan`, the consumer holding `chan` over its loop body, calls of other extracted")
+    L.append("   functions inlined.  Actor 0 stands for any actor. -/")
     L.append("import Corro.Model.WritePool")
     L.append("import Corro.Model.LockOrder")
     L.append("namespace Corro.Gen.LockPrograms")
@@ -783,15 +1162,28 @@ def render(programs, pool, n_sites):
     L.append(f"/-- number of `.write_priority()|.write_normal()|.write_low()` call sites in non-test sources -/")
     L.append(f"def connSites : Nat := {n_sites}")
     L.append("")
+    L.append("/-- the agent's bounded channels: (`chan` number, label, capacity expression, created at, consumer) -/")
+    L.append("def channels : List (Nat × String × String × String × String) := [")
+    for i, c in enumerate(chans):
+        comma = "," if i + 1 < len(chans) else ""
+        cons = c.consumers[0].replace("crates/", "") if c.consumers else "-"
+        L.append(f"  -- blocking senders: {', '.join(x.replace('crates/', '') for x in c.senders) if c.senders else 'none'}")
+        L.append(f"  ({i}, \"{c.label}\", \"{c.cap}\", \"{c.where.replace('crates/', '')}\", \"{cons}\"){comma}")
+    L.append("]")
+    L.append("")
+    L.append("/-- ranks: a topological order of `held -> acquired` over all programs and conn -> bookie -> booked" + (
+        f";\nNO such order exists (a cycle was broken at {', '.join(cyclic)})" if cyclic else "") + " -/")
+    L.append("def ranking : Ranking := [" + ", ".join(f"({kind(k)}, {r})" for k, r in sorted(rank.items(), key=lambda t: t[1])) + "]")
+    L.append("")
     L.append("def programs : List Named := [")
     for i, (rel, name, ops) in enumerate(programs):
         short = rel.replace("crates/", "")
         items = []
         for e in ops:
             if e[0] == "acq":
-                items.append(f".acq .{e[1]} 0 .{e[2]}")
+                items.append(f".acq {kind(e[1])} 0 .{e[2]}")
             elif e[0] == "rel":
-                items.append(f".rel .{e[1]}")
+                items.append(f".rel {kind(e[1])}")
         comma = "," if i + 1 < len(programs) else ""
         trace = " ".join((f"{e[3]}@{e[4]}" if e[0] == "acq" else (f"-{e[1]}" if e[0] == "rel" else f"[{e[1]}]")) for e in ops)
         L.append(f"  -- {trace}")
@@ -804,18 +1196,24 @@ def render(programs, pool, n_sites):
 
 
 def extract(repo):
-    programs, n_sites = extract_programs(repo)
+    programs, n_sites, chans = extract_programs(repo)
     pool = extract_pool(repo)
-    return [("LockPrograms.lean", render(programs, pool, n_sites))]
+    return [("LockPrograms.lean", render(programs, pool, n_sites, chans))]
 
 
 if __name__ == "__main__":
     import sys
-    repo = sys.argv[1] if len(sys.argv) > 1 else "/repo"
-    programs, n_sites = extract_programs(repo)
+    pos = [a for a in sys.argv[1:] if not a.startswith("-")]
+    repo = pos[0] if pos else "/repo"
+    programs, n_sites, chans = extract_programs(repo)
+    rank, cyclic = compute_ranking(chans, programs)
     for rel, name, ops in programs:
-        ok, bad = check_ordered(ops)
-        print(("OK   " if ok else "BAD  ") + rel + "::" + name)
-        for e in ops:
-            print("      ", e)
+        ok, bad = check_ordered(ops, rank)
+        print(("OK   " if ok else "BAD  ") + rel + "::" + name + ("" if ok else f"   <- {bad}"))
+        if "-v" in sys.argv:
+            for e in ops:
+                print("      ", e)
+    for c in chans:
+        print(f"chan {c.label}: cap={c.cap} at {c.where}\n    tx={sorted(c.tx_names)}\n    rx={sorted(c.rx_names)}\n    consumer={c.consumers}\n    senders={c.senders}")
+    print("ranking:", sorted(rank.items(), key=lambda t: t[1]), "cyclic:", cyclic)
     print(extract_pool(repo), "conn sites:", n_sites)
